@@ -189,3 +189,40 @@ Definition check_pol_history (init : String.string) (ctor_ok : bool) (vs : list 
   end.
 Fixpoint qlist_eqb (a b : list Q) : bool :=
   match a, b with [], [] => true | x :: t, y :: u => Qeq_bool x y && qlist_eqb t u | _, _ => false end.
+
+(* ---- add_lorentzian_line with the bin integral COMPUTED by the model of the Gauss-Legendre loop (not tabulated):
+   per bin |model - impl| <= (2^-40 + 2^-49 W / fwhm) |model| + 2^-70 |R| / delta ---- *)
+Definition check_lorentz_gq (T : otabs) (normc : Q) (roots weights : list Q) (mn mx : nat) (rtol : Q)
+           (R lam w : Q) (g : grid) (smp0 out : list Q) : bool :=
+  let Igq := fun lam' w' a b => stark_bin_integral (oP T) normc roots weights mn mx rtol lam' w' a b in
+  let model := add_lorentzian Igq R lam w g smp0 in
+  let relt := pow2 (-40) + pow2 (-49) * (wscale g / w) in
+  forallb3 (fun _ m o => Qle_bool (Qabs (Qred m - o)) (Qred (relt * Qabs (m - 0) + pow2 (-70) * Qabs R / gdelta g))) 0%Z model out.
+
+(* ---- the oracle keys of the first two levels are COMPUTED HERE from the inputs (level 1) and from the table's own answers
+   to level 1 (level 2) and must be present in the tables: the Python walk that filled the tables is checked, not trusted ---- *)
+Definition has_key (t : qtree) (x : Q) : bool := match qlookup t x with Some _ => true | None => false end.
+Fixpoint has_key2 (l : list (Q * Q * Q)) (x y : Q) : bool :=
+  match l with [] => false | (a, b, _) :: t => (Qeq_bool a x && Qeq_bool b y) || has_key2 t x y end.
+Inductive kclass := KGauss | KZeeman | KZeemanM | KParam (beta gamma : Q) | KStark (aij bij ne te : Q) | KMse (benergy btemp : Q) (bdir : vec).
+Definition norm2 (a : vec) : Q := vx a * vx a + vy a * vy a + vz a * vz a.
+Definition thermal_key (K : consts) (t m : Q) : Q := t * k_e K / (m * k_amu K).
+Definition keys_ok (T : otabs) (K : consts) (kc : kclass) (w m ts ne te : Q) (dir b : vec) : bool :=
+  let S := has_key (tS T) in
+  match kc with
+  | KGauss => Qle_bool ts 0 || (S (norm2 dir) && S (thermal_key K ts m))
+  | KZeeman => Qle_bool ts 0 || (S (norm2 dir) && S (thermal_key K ts m) && S (norm2 b))
+  | KZeemanM => Qle_bool ts 0 || (S (thermal_key K ts m) && S (norm2 b))
+  | KParam beta gamma =>
+    Qle_bool ts 0 ||
+    (S (norm2 dir) && S (thermal_key K ts m) && S (norm2 b) && has_key2 (tP T) ts (2 * gamma)
+     && S (1 + beta * beta * oP T ts (2 * gamma)))                                  (* level 2: uses the pow answer *)
+  | KStark aij bij ne' te' =>
+    (Qle_bool ts 0 || S (thermal_key K ts m))
+    && (negb (Qltb 0 ne' && Qltb 0 te') || (has_key2 (tP T) ne' aij && has_key2 (tP T) te' bij))
+  | KMse benergy btemp bdir =>
+    Qle_bool te 0 || Qle_bool ne 0 ||
+    (S (norm2 bdir) && S (2 * benergy * k_e K * (1 / k_amu K)) && S (norm2 dir) && S (thermal_key K btemp m)
+     && (let bv := vscale (normalise (oS T) bdir) (evamu_to_ms K (oS T) benergy) in
+         S (norm2 (cross bv b))))                                                   (* level 2: uses two sqrt answers *)
+  end.
